@@ -49,9 +49,11 @@ log = logging.getLogger('chameleon.loader')
 
 def cache(func: _F) -> _F:
     def load(self: Any, *args: Any, **kwargs: Any) -> Any:
-        template = self.registry.get(args)
+        # (the template class may be given as a keyword argument)
+        key = args + tuple(v for k, v in sorted(kwargs.items()))
+        template = self.registry.get(key)
         if template is None:
-            self.registry[args] = template = func(self, *args, **kwargs)
+            self.registry[key] = template = func(self, *args, **kwargs)
         return template
     return cast('_F', load)
 
